@@ -994,9 +994,9 @@ func c15execSQL(cf c15conf, c Case) [][][]string {
 		switch op[0] {
 		case "new":
 			if n := c15pcap(c); n > 0 {
-				s = streamsql.New(streamsql.WithDiscardLog(), streamsql.WithAnalyticMaxPartitions(n))
+				s = streamsql.New(presetOpt(), streamsql.WithDiscardLog(), streamsql.WithAnalyticMaxPartitions(n))
 			} else {
-				s = streamsql.New(streamsql.WithDiscardLog())
+				s = streamsql.New(presetOpt(), streamsql.WithDiscardLog())
 			}
 			if err := s.Execute(cf.sqlText()); err != nil {
 				s.Stop()
